@@ -11,9 +11,8 @@ VARIABLES l, viol, cnt
 
 Ok(e) == e.res = "ok"
 
-LayoutVerdict(e) ==
-    IF ~Ok(e) THEN {}
-    ELSE (IF Sorted(e.entries) THEN {} ELSE {"Inv_C12_Sorted"})
+LayoutVerdictOn(e) ==
+         (IF Sorted(e.entries) THEN {} ELSE {"Inv_C12_Sorted"})
          \cup (IF \A x \in ToSet(e.entries) : InSlot(x) THEN {}
                \* the known way this fails: a sub-word taken of a sub-word beyond the inner one's width
                ELSE IF e.keys.nested_masks THEN {"Inv_C12_InSlot/nested-subword"} ELSE {"Inv_C12_InSlot"})
@@ -22,10 +21,23 @@ LayoutVerdict(e) ==
                \* the known way this fails: fields of a packed variable that are only ever written, through a left shift
                ELSE IF \A i \in failing : /\ e.vars[i].kind = "packed"
                                            /\ \A f \in MissingFields(e.vars[i], e.entries) : WriteOnlyShifted(e.vars[i], f)
-                    THEN {"Inv_C04_Expected/packed-write-only"} ELSE {"Inv_C04_Expected"})
+                    THEN {"Inv_C04_Expected/packed-write-only"}
+               \* ... or a write-only field at bit 0 whose source is shifted down before it is masked
+               ELSE IF \A i \in failing : /\ e.vars[i].kind = "packed"
+                                           /\ \A f \in MissingFields(e.vars[i], e.entries) :
+                                                  WriteOnlyShifted(e.vars[i], f) \/ PreShiftedLow(e.vars[i], f)
+                    THEN {"Inv_C04_Expected/preshifted-low-field"}
+               ELSE {"Inv_C04_Expected"})
          \cup (IF NoPhantom(e.entries, e.keys) THEN {}
                ELSE IF OnlyInValue(e.entries, e.keys) THEN {"Inv_C05_NoPhantom/value-operand"} ELSE {"Inv_C05_NoPhantom"})
          \cup (IF NoMissed(e.entries, e.keys) THEN {} ELSE {"Inv_C06_NoMissed"})
+
+(* A record carries the layout of the staged run and, when it differs, the layout the one-call entry point *)
+(* returned for the same input (entries_analyze): both are layouts of this program and are judged alike.    *)
+LayoutVerdict(e0) ==
+    IF ~Ok(e0) THEN {}
+    ELSE UNION {LayoutVerdictOn([e0 EXCEPT !.entries = es]) :
+                  es \in {e0.entries} \cup (IF "entries_analyze" \in DOMAIN e0 THEN {e0.entries_analyze} ELSE {})}
 
 Sigma(e, s) == LET m == {p \in ToSet(e.sigma) : p[1] = s} IN
                IF m = {} THEN s ELSE (CHOOSE p \in m : TRUE)[2]
